@@ -10,7 +10,7 @@ import time
 import scope
 from common import NCPU, Machinery, Scratch, nucs_env, read_ndjson, run_workers, validate_shards
 
-QUICK_PER_FAMILY = 650
+QUICK_PER_FAMILY = 1000
 THOROUGH_PER_FAMILY = 120_000
 
 
@@ -19,7 +19,7 @@ def plan(tier: str):
     rate = {}
     for name in scope.FAMILIES:
         sz = scope.family_size(name)
-        rate[name] = 1.0 if sz <= cap else cap / sz
+        rate[name] = 1.0 if sz <= cap or (tier == "quick" and name in scope.FULL_IN_QUICK) else cap / sz
     return rate
 
 
